@@ -85,12 +85,27 @@ def run_case(args):
                 return False
         return True
 
+    # "empty-out episode" (a fifth of the histories start with it): a table gets several row-sets, loses
+    # every row, is compacted to nothing and the database is reopened twice without any statement in
+    # between - then rows arrive again. Row-set ids, delete vectors and manifest entries of the emptied
+    # table must not leak into what is inserted afterwards.
+    forced = []
+    if rng.random() < 0.2:
+        forced = ["create", "insert", "insert"] + (["insert"] if rng.random() < 0.5 else []) + \
+                 ["delete_all", "tick", "tick", "reopen_quiet", "reopen_quiet", "insert", "check", "reopen_quiet", "insert", "check"]
     try:
-        for step in range(nsteps):
-            kinds = ["create"] * 2 + ["insert"] * 5 + ["delete"] * 3 + ["drop"] + ["tick"] * 2 + ["reopen"] * 2 + ["view", "function", "index"]
-            k = rng.choice(kinds)
-            if not model and k in ("insert", "delete", "drop", "view", "index"):
+        for step in range(nsteps + len(forced)):
+            kinds = ["create"] * 2 + ["insert"] * 5 + ["delete"] * 3 + ["drop"] + ["tick"] * 2 + ["reopen"] * 2 + ["view", "function", "index"] + ["delete_all"]
+            k = forced.pop(0) if forced else rng.choice(kinds)
+            if not model and k in ("insert", "delete", "delete_all", "drop", "view", "index"):
                 k = "create"
+            quiet = k == "reopen_quiet"
+            if quiet:
+                k = "reopen"
+            if k == "check":
+                if not check_state(f"step {step}"):
+                    break
+                continue
             if k == "create":
                 free = [n for n in NAMES if n not in model]
                 if not free:
@@ -134,6 +149,22 @@ def run_case(args):
                     res["features"].add("insert")
                     if r["rows"] != [(len(rows),)]:
                         fail("insert-count", f"insert reported {r['rows']} for {len(rows)} rows")
+                        break
+            elif k == "delete_all":
+                mt = model[rng.choice(sorted(model))]
+                sql = f"delete from {mt.table.name}"
+                r = sql_retry(rl, sql)
+                hist.append((sql, r["ok"]))
+                res["stmts"] += 1
+                if r.get("dead"):
+                    res["inconclusive"] = "runner died: " + r["err"]
+                    break
+                if r["ok"]:
+                    n = len(mt.rows)
+                    mt.rows = []
+                    res["features"].add("delete_all")
+                    if r["rows"] != [(n,)]:
+                        fail("delete-count", f"{sql}: reported {r['rows']} but the table had {n} rows")
                         break
             elif k == "delete":
                 mt = model[rng.choice(sorted(model))]
@@ -203,8 +234,9 @@ def run_case(args):
                     break
                 if not check_state(f"reopen#{res['reopens']}"):
                     break
-                # the reopened database accepts further statements
-                for name, mt in list(model.items())[:2]:
+                # the reopened database accepts further statements (not after every reopen: two
+                # reopen cycles in a row without any statement are a history of their own)
+                for name, mt in ([] if quiet or rng.random() < 0.3 else list(model.items())[:2]):
                     rows = gen_rows(rng, mt.table, n=1, wide_pk=True)
                     if mt.table.pk():
                         pki = [i for i, c in enumerate(mt.table.cols) if c.pk][0]
@@ -276,7 +308,7 @@ def run_sentinel(s):
 
 def run(tier, seed):
     rep = Report("C03", tier, seed, "exploration")
-    n = 120 if tier == "quick" else 6000
+    n = 480 if tier == "quick" else 6000
     nsteps = 30 if tier == "quick" else 45
     rep.rule = ("random histories of CREATE/DROP TABLE, CREATE VIEW/INDEX/FUNCTION, INSERT, DELETE WHERE p, compaction "
                 "passes and shutdown+reopen over 4 storage layouts; distinct = distinct history hashes that contain at "
